@@ -12,7 +12,8 @@ CHECKS = {
             "each combined with every vector of environment answers within the deviation bound at every I/O step of every attempt; "
             "slot/duplicate/lease/leak/open-count/exception-class invariants are evaluated after every transition on the real objects. "
             "Environment answers include will_close responses whose body stalls or is reset, a retried status with Retry-After whose wait can be interrupted, "
-            "and bodies that cannot be rewound (a second attempt ends in UnrewindableBodyError before a connection is taken).",
+            "and bodies that cannot be rewound (a second attempt ends in UnrewindableBodyError before a connection is taken). "
+            "A connection found idle in the pool must have finished its last exchange (answer complete, nothing unread).",
             "simnet socket stand-in (close()/makefile() release semantics), stub TLS for https kinds, environment answer menus listed in the evidence; bounds: deviation and depth per pass as recorded.",
             "DESIGN.md §3 C01"),
     "C02": ("model_checking",
@@ -20,7 +21,8 @@ CHECKS = {
             "Real threads run urlopen/close on one real pool under a scheduler that owns every interleaving decision (LINE events in the pool's shared-state functions + every queue stand-in operation); "
             "every schedule within the preemption bound is executed and checked for exclusive leases, the block=True open-socket bound, progress (deadlock detection), "
             "own-tagged responses, ClosedPoolError-only failures under a racing close(), a socket never closed by a thread that does not hold its lease "
-            "(streaming responses disposed of by close()), and socket reclamation after the pool is dropped.",
+            "(streaming responses disposed of by close()), and socket reclamation after the pool is dropped. "
+            "Deadlock signatures record whether the waiter went to sleep on a queue still attached to the pool, so that the one listed finding (waiting on a queue detached by close()) cannot absorb a different deadlock.",
             "CPython GIL memory model at source-line granularity; queue.LifoQueue replaced by a sequentially equivalent stand-in (checked at start-up); simnet sockets.",
             "DESIGN.md §3 C02"),
     "C03": ("model_checking",
@@ -43,7 +45,8 @@ CHECKS = {
             "exhaustive enumeration of hostile strings per request field across entry points, strict independent wire parser (simnet)",
             "All strings up to the length bound over a hostile alphabet plus injection templates, for method, URL (by position), header name, header value, name/value pairs, automatic-header combinations and body kinds, "
             "through HTTPConnection.request, HTTPConnectionPool.urlopen, PoolManager.request and HTTP2Connection.putheader; either nothing is written or the bytes parse as exactly the one requested request. "
-            "After every rejected call the same pool / manager / connection object (close(), then request()) must emit exactly the next benign request.",
+            "After every rejected call the same pool / manager / connection object (close(), then request()) must emit exactly the next benign request. "
+            "Family body-framing: a caller-supplied Content-Length or Transfer-Encoding with and without chunked=True must still give exactly one request under the announced framing.",
             "simnet; two independent parsers (mc/httpparse.py and the check's own); http.client laxities listed in DESIGN §3 C10 are counted, not flagged.",
             "DESIGN.md §3 C10"),
     "C18": ("exploration",
@@ -58,7 +61,8 @@ CHECKS = {
             "For every response spec (payload size x content coding x framing x socket segmentation x decode_content) every sequence of read calls up to the length bound "
             "(completed by read(7)-until-empty) and every single-API program runs on a fresh real response obtained through HTTPConnection.getresponse(); "
             "the concatenation must equal the reference payload, sized reads never exceed n, nothing after the end, no empty streamed piece, no exception. "
-            "Mixed programs leave a stream()/read_chunked() generator suspended after k pieces and let another API read the rest.",
+            "Mixed programs leave a stream()/read_chunked() generator suspended after k pieces and let another API read the rest; partial-read-then-.data programs look at .data twice; "
+            "chunked responses also arrive with the coding name spelt Chunked / CHUNKED.",
             "simnet socket stand-in; reference payloads from the gzip/zlib/zstandard one-shot encoders; brotli absent in this image.",
             "DESIGN.md §3 C12"),
     "C13": ("fault_enumeration",
@@ -88,7 +92,8 @@ CHECKS = {
             "Every outcome script up to the length bound (each attempt answered by one of 13 environment outcomes: refused/timed-out dial, read timeout, reset, EOF, garbage, stalled body, TLS error, "
             "handshake failure in a tunnel, 500, 503+Retry-After, 429+date, 418+Retry-After) is run through the real HTTPConnectionPool/ProxyManager retry loop for every Retry spelling "
             "(False, ints, per-category budgets, allowed_methods, forcelist, raise_on_status, respect_retry_after_header, backoff) x method x pool kind; an accountant over simnet's ledger "
-            "(dials, requests received, what the server did, sleeps, final result) checks budgets, non-idempotent re-sends, retries=False, Retry immutability, sleep bounds and how the loop ends.",
+            "(dials, requests received, what the server did, sleeps, final result) checks budgets, non-idempotent re-sends, retries=False, Retry immutability, sleep bounds and how the loop ends. "
+            "Further outcomes: a read-phase OSError that is no ConnectionError, a 413 whose Retry-After date lies in the past; backoff configurations include backoff_max=0.",
             "simnet + stub TLS; virtual clock; random pinned; knob-collapse argument recorded in the evidence assumptions; the ledger never calls Retry methods.",
             "DESIGN.md \u00a73 C04"),
     "C05": ("fault_enumeration",
@@ -128,7 +133,8 @@ CHECKS = {
             "exhaustive enumeration of body kinds x sizes x methods x framing options x attempt histories on the real urlopen (simnet), independent de-framer + reference payload oracle",
             "Every (driver pool/manager, body kind incl. bytes/str/buffers with itemsize>1/seekable, text, tell-less, failing-tell, failing-seek files/lists/generators/one-shot iterators with empty chunks, "
             "size around the blocksize, file start offset, method, chunked flag, caller framing header) x every attempt history of length <= 3 over {connect error, reset, 503, 301, 303, 307, 308}; "
-            "each attempt's bytes are de-framed by mc/httpparse.py and compared with the payload computed from the body specification; re-sends must be byte-identical or fail with UnrewindableBodyError.",
+            "each attempt's bytes are de-framed by mc/httpparse.py and compared with the payload computed from the body specification; re-sends must be byte-identical or fail with UnrewindableBodyError. "
+            "A second policy puts the method outside Retry.allowed_methods (library default for POST/PATCH/unknown methods, a caller's short list for the others) over the histories made of failed dials and redirects, which still re-send.",
             "blocksize 8; 'either' regions listed in the evidence assumptions.",
             "DESIGN.md \u00a73 C11"),
     "C14": ("exploration",
@@ -143,7 +149,8 @@ CHECKS = {
             "Every URL of the component product (hostnames, IPv4, bracketed IPv6 with/without zone, IDN, trailing dot, explicit/default/odd ports, userinfo, empty path with query, fragments) that the manager accepts is requested; "
             "the dialled address, Host header, TLS server name, CONNECT authority and request target are read off the network and compared with an independent reading of the URL; "
             "case/default-port variants must reach the same pool and produce byte-identical requests; URLs without a host must be rejected. "
-            "Redirect follow-ups (chains of 1-2 hops over every Location form) are requests for URLs too: the Host header of every request must name the origin that request is addressed to.",
+            "Redirect follow-ups (chains of 1-2 hops over every Location form) are requests for URLs too: the Host header of every request must name the origin that request is addressed to. "
+            "Request paths include one that looks like a network-path reference (//n.test/b), which must stay a path.",
             "simnet records what create_connection and the TLS layer were given; zone-id spelling in Host/CONNECT is 'either'.",
             "DESIGN.md \u00a73 C15"),
     "C19": ("exploration",
@@ -157,7 +164,8 @@ CHECKS = {
             "exhaustive enumeration of hostile field names / filenames / values / field-list shapes through encode_multipart_formdata and request_encode_body, strict independent multipart parser",
             "All names and filenames up to the length bound over a hostile alphabet (quotes, CR, LF, backslash, semicolon, non-ASCII, boundary look-alikes), values that contain boundary prefixes, tuple/dict/RequestField inputs and field lists up to the arity bound: "
             "the body must parse under the strict parser into exactly the given fields in order, with WHATWG-escaped names, the data bytes intact, the boundary of the returned content type, and a closing delimiter. "
-            "The same field objects encoded a second time must give the same bytes; a caller's HTTPHeaderDict used for two requests must not carry the first boundary into the second.",
+            "The same field objects encoded a second time must give the same bytes; a caller's HTTPHeaderDict used for two requests must not carry the first boundary into the second; "
+            "an empty caller mapping (headers={}) replaces the object's default headers, it does not fall back to them.",
             "boundaries are read from the returned content type (os.urandom stand-in keeps them deterministic); precondition: boundary does not occur in any supplied string.",
             "DESIGN.md \u00a73 C20"),
 }
